@@ -331,6 +331,32 @@ def build_var(s, v):
     return lst
 
 
+def plain_for(s, v):
+    """the set()/constructor argument standing for v under structure s: typed objects for Dynamic items (so that the type is
+    not left to `_match_type`), plain lists / str / bytes elsewhere"""
+    k = s[0]
+    t, xs = v
+    if k == "leaf":
+        return leaf_payload(t, xs) if t != "B" else bytes(xs)
+    if k in ("dyn", "any"):
+        return VARCLS[t](leaf_payload(t, xs) if t != "B" else bytes(xs))
+    if k == "arr":
+        return [plain_for(s[1], x) for x in xs]
+    return [plain_for(f, x) for f, x in zip(s[1], xs)]
+
+
+def has_list_under_dyn(s, v):
+    k = s[0]
+    t, xs = v
+    if k in ("dyn", "any"):
+        return t == "L"
+    if k == "arr":
+        return any(has_list_under_dyn(s[1], x) for x in xs)
+    if k == "rec":
+        return any(has_list_under_dyn(f, x) for f, x in zip(s[1], xs))
+    return False
+
+
 def val_of_var(obj):
     """canonical Val (or the string NONE) of a variable object tree"""
     if isinstance(obj, V.Dynamic):
